@@ -89,11 +89,12 @@ def explore(item):
     fill = prop == "C12"
     tfsec = A.tf_seconds(tf)
     var = A.variant()
-    word = SHAPEWORDS[var["rot"] % len(SHAPEWORDS)] if len(item) < 7 else REPEATWORDS[item[6]]
+    word = SHAPEWORDS[var["rot"] % len(SHAPEWORDS)] if len(item) < 7 or len(item) > 7 else REPEATWORDS[item[6]]
     for g0 in g0s:
         for rest in A.words(GAPS, n - 2) if n >= 2 else [""]:
             gaps = g0 + rest if n >= 2 else ""
-            ts = A.timestamps(first, gaps, tfsec, var["base"])
+            base = var["base"] if len(item) < 8 else item[7]
+            ts = A.timestamps(first, gaps, tfsec, base)
             raw = [A.shape(word[i % len(word)], var) + (t.isoformat(),) for i, t in enumerate(ts)]
             ref = R.collapse(raw, tfsec)
             ref_nofill = ref
@@ -177,6 +178,11 @@ def main(prop, tier):
             for n in range(2, sp["n"] + 1):
                 for first in FIRSTS:
                     items.append((prop, tier, tf, n, first, GAPS, wi))
+    from datetime import datetime as _dt
+    for tf in (["T2", "H4", "D2"] if tier == "quick" else sp["tfs"]):  # timestamps before / across the epoch (negative offsets)
+        for n in range(2, sp["n"] + 1):
+            for first in FIRSTS:
+                items.append((prop, tier, tf, n, first, GAPS, 0, _dt(1969, 12, 31, 23, 56) if tf[0] in "ST" else _dt(1969, 12, 27, 20, 0)))
     rep = merge_all(pmap(explore, items))
     rule = ("every gap word over {dup,1s,tf/2,tf-1,tf,tf+1,2tf,2.5tf,5tf+1}^(n-1) x first-candle offset {on boundary,+1s,mid,-1s} "
             "x timeframe x host {CandleManager, Indicator, Hexital member timeframe, Hexital default timeframe} x preload k x every "
